@@ -291,7 +291,7 @@ class KllC07(Part):
                     fail("bad-observation", o[:60], i)
                     continue
                 check_S(s, d, i, False)
-            elif op in ("upd", "merge", "copy"):
+            elif op in ("upd", "updn", "merge", "copy"):
                 if op == "copy":
                     src = sk.get(int(w[1]))
                     if src is None:
@@ -320,6 +320,10 @@ class KllC07(Part):
                         after_merge = s.get("after_merge", False)
                     else:
                         add_items(s, [x])
+                elif op == "updn":
+                    cnt, st0, sd, md = int(w[2]), int(w[3]), int(w[4]), int(w[5])
+                    vs = [(st0 + j * sd) % md for j in range(cnt)]
+                    add_items(s, [float(v) for v in vs] if s["ty"] == "d" else vs)
                 elif op == "merge":
                     t = sk.get(int(w[2]))
                     if t is not None:
